@@ -60,7 +60,7 @@ def discover(facts):
     outs = I.run(b, [], st)
     if not outs or any(o.kind != "return" or o.state.unmodelled or any("undecided" in n for n in o.state.notes) for o in outs):
         o = [o for o in outs if o.kind != "return" or o.state.unmodelled or any("undecided" in n for n in o.state.notes)]
-        return None, "default() not decided: %s" % ((o[0].kind, o[0].state.unmodelled[:2], o[0].state.notes[:1]) if o else "no outcome")
+        return None, "default() not decided: %s" % (((o[0].kind, o[0].state.unmodelled[:2], o[0].state.notes[:1]),) if o else ("no outcome",))
     return [[(e[1], e[2]) for e in o.state.events if e[0] == "register"] for o in outs], None
 
 
